@@ -49,6 +49,8 @@ C11Params ==
                                                           m \in 1 .. Len(StrPool) }
                : n \in 0 .. MaxLen }
     \cup { <<"rasgk", "list", n, 0, n, kx>> : n \in 1 .. 2, kx \in {100, 101, 104, 105} }
+    \* xs + ys is a new list whatever the lengths (also when one side is empty): writes through it leave xs, ys alone
+    \cup { <<"catfresh", "list", n, m, 0, 0>> : n \in 0 .. MaxLen, m \in 0 .. 2 }
 
 RhsKind(kx) == CASE kx = 100 -> ENull [] kx = 101 -> EBool(TRUE) [] kx = 104 -> EInt(5)
                  [] kx = 105 -> EObj(<<>>)
@@ -83,6 +85,14 @@ C11ProgOf(p) ==
                    <<SPrint(EBin("==", EIndex(EBin("+", EVar(Xs), EVar(Ys)),
                                               EBin("+", EInt(n), EIndex(EVar(Kv), EInt(0)))),
                                  EIndex(EVar(Kv), EInt(1))))>>)>>
+      [] p[1] = "catfresh" ->
+            <<SDecl(EVar(Xs), s), SDecl(EVar(Ys), ListOf(p[4])),
+              SDecl(EVar(Kv), EBin("+", EVar(Xs), EVar(Ys))),
+              SPrint(EBin("===", EVar(Kv), EVar(Xs))), SPrint(EBin("===", EVar(Kv), EVar(Ys))),
+              SDecl(EVar(<<122>>), EBin("+", EVar(Ys), EVar(Xs))), SPrint(EBin("===", EVar(<<122>>), EVar(Xs))),
+              SOpAssign(EVar(Kv), "+", EList(<<EInt(50)>>)), SAssign(EIndex(EVar(Kv), EInt(0)), EInt(51)),
+              SAssign(ERIndex(EVar(<<122>>), EInt(0), EInt(1)), EStr(<<113>>)),
+              SPrint(EVar(Xs)), SPrint(EVar(Ys)), SPrint(EVar(Kv)), SPrint(EVar(<<122>>))>>
       [] p[1] = "iasg" -> <<SDecl(EVar(Xs), s), SAssign(EIndex(EVar(Xs), Bnd(p[4])), EInt(99)),
                             SPrint(EVar(Xs))>>
       [] p[1] = "rasg" -> <<SDecl(EVar(Xs), s),
@@ -142,10 +152,11 @@ RangeAssignAliasDomain ==
         ((status.k = "done") <=>
             /\ pi[4] \in (0 .. SLen) \cup {OM} /\ pi[5] \in (0 .. SLen) \cup {OM}
             /\ Lo(pi[4]) < Hi(pi[5], SLen) /\ SLen = Hi(pi[5], SLen) - Lo(pi[4]))
+CatFresh == (Finished /\ Fam = "catfresh") => (out[1] = T_false /\ out[2] = T_false /\ out[3] = T_false)
 RangeAssignKind == (Finished /\ Fam = "rasgk") => status.k = "failed"
 \* any violation of a domain is a *reported* error, with a position
 OutOfDomainIsError == (status.k = "failed") => Located(status.diag)
 
 C11Laws == /\ IndexDomain /\ RangeDomain /\ RangeLaw /\ SplitJoin /\ ConcatLaw
-           /\ IndexAssignDomain /\ RangeAssignDomain /\ RangeAssignAliasDomain /\ RangeAssignKind /\ OutOfDomainIsError
+           /\ IndexAssignDomain /\ RangeAssignDomain /\ RangeAssignAliasDomain /\ CatFresh /\ RangeAssignKind /\ OutOfDomainIsError
 =============================================================================
